@@ -2,7 +2,6 @@ package graphql
 
 import (
 	"container/list"
-	"hash/fnv"
 	"strconv"
 	"sync"
 	"sync/atomic"
@@ -131,7 +130,7 @@ func (c *PlanCache) Get(schema *Schema, query, operationName string) PlanResult 
 
 	if !c.opts.Normalize {
 		// Plain cache: raw query string is the key.
-		key := operationName + "\x00" + query
+		key := strconv.Itoa(len(operationName)) + ":" + operationName + query
 		if pr, ok := c.lookup(schema, key); ok {
 			return pr
 		}
@@ -160,11 +159,9 @@ func (c *PlanCache) Get(schema *Schema, query, operationName string) PlanResult 
 		// any cached parse/validate/plan error from the first such
 		// query would be returned for every subsequent malformed
 		// query under the same operationName.
-		h := fnv.New64a()
-		_, _ = h.Write([]byte(query))
-		normKey = "raw:" + strconv.FormatUint(h.Sum64(), 16)
+		normKey = "raw:" + query
 	}
-	cacheKey := operationName + "\x00" + normKey
+	cacheKey := strconv.Itoa(len(operationName)) + ":" + operationName + normKey
 	if pr, ok := c.lookup(schema, cacheKey); ok {
 		// Stash this call's synthArgs onto the returned result.
 		// The cached PlanResult deliberately stores no synthArgs
